@@ -236,7 +236,24 @@ pub fn check_head(bytes: &[u8], case: &Case, eff: &Eff, rec: &mut Rec) -> Option
         rec.fail("C02/host-count", format!("{} Host headers in {:?}", hosts.len(), fmt_fields(&got)));
         return None;
     }
-    if !caller_host {
+    if caller_host && eff.depth >= 1 && !case.cfg.added.iter().any(|(n, _)| n.eq_ignore_ascii_case("host")) {
+        // A Host header spelled out on the ORIGINAL request, seen again after a redirect: the statement
+        // does not say whether "the caller supplied" it for this request too. Both readings are
+        // accepted here - the inherited value in its place, or a Host derived from the new URI wherever
+        // it stands (C14 owns "names that URI's host") - so the one Host line is taken out of the
+        // comparison and only its value is looked at.
+        let hv = String::from_utf8_lossy(hosts[0]).to_ascii_lowercase();
+        let want = host_of(&eff.uri);
+        let host_part = hv.rsplit_once(':').map(|(h, p)| if p.chars().all(|c| c.is_ascii_digit()) { h.to_string() } else { hv.clone() }).unwrap_or(hv.clone());
+        let inherited_value = expected.iter().any(|(n, v)| n == "host" && v.eq_ignore_ascii_case(hosts[0]));
+        if !(inherited_value || host_part == want || hv == want) {
+            rec.fail("C02/derived-host", format!("Host {:?} after a redirect is neither the original request's nor the URI host {:?}", hv, want));
+            return None;
+        }
+        got.retain(|(n, _)| n != "host");
+        expected.retain(|(n, _)| n != "host");
+        rec.cov("host/explicit-on-original-after-redirect");
+    } else if !caller_host {
         let hv = String::from_utf8_lossy(hosts[0]).to_ascii_lowercase();
         let want = host_of(&eff.uri);
         let host_part = hv.rsplit_once(':').map(|(h, p)| if p.chars().all(|c| c.is_ascii_digit()) { h.to_string() } else { hv.clone() }).unwrap_or(hv.clone());
@@ -395,6 +412,11 @@ fn scheduled_write(f: &mut F<SendRequest>, reference: &ParsedHead, ref_bytes: &[
             Ok(0) => rec.cov("after-complete/ok0"),
             Ok(n) => {
                 rec.fail("C02/bytes-after-complete", format!("write(out={}) after the head was complete emitted {} bytes: {:?}", size, n, esc_short(&buf[..n.min(size)], 40)));
+                return false;
+            }
+            Err(Error::OutputOverflow) => {
+                // the overflow error is reserved for "not even the next line fits"; there is no next line
+                rec.fail("C02/overflow-after-complete", format!("write(out={}) after the head was complete -> OutputOverflow although no line is left to fit", size));
                 return false;
             }
             Err(_) => rec.cov("after-complete/err"),
@@ -576,11 +598,15 @@ fn call_case(rng: &mut Rng, rec: &mut Rec) {
                 Err(e) => return rec.fail("C02/valid-request-refused", format!("Call::without_body {}: {:?}", case.cfg.describe(), e)),
             }
         }
-        let mut buf = vec![0u8; 100];
-        rec.call();
-        match c.write(&mut buf) {
-            Ok(0) | Err(_) => {}
-            Ok(n) => return rec.fail("C02/bytes-after-complete", format!("Call::without_body emitted {} bytes after completion", n)),
+        for size in [100usize, 0] {
+            let mut buf = vec![0u8; size];
+            rec.call();
+            match c.write(&mut buf) {
+                Ok(0) => {}
+                Err(Error::OutputOverflow) => return rec.fail("C02/overflow-after-complete", format!("Call::without_body write(out={}) after completion -> OutputOverflow although no line is left to fit", size)),
+                Err(_) => {}
+                Ok(n) => return rec.fail("C02/bytes-after-complete", format!("Call::without_body emitted {} bytes after completion", n)),
+            }
         }
     }
     if let Some(h) = check_head(&out, &case, &eff, rec) {
@@ -598,7 +624,7 @@ impl Property for P {
         "C02"
     }
     fn rule(&self) -> String {
-        "random absolute-URI requests (9 methods, 1.0/1.1, 0..60 original + 0..60 caller-added headers with repeated names, mixed case, empty and non-UTF-8 values, explicit/derived Host, caller or default framing, despite-method, Expect) at redirect depth 0..3. The one-shot head is parsed by an independent strict parser and compared with the model (request line, caller-added then original headers in order, exactly one Host, exactly the framing header the body writer then uses - verified by is_chunked() and one real body byte). The same request is then written twice under buffer-size schedules biased to every line length -1/0/+1: each call must emit whole lines identical to the one-shot bytes, OutputOverflow exactly when the next line does not fit, nothing after completion. Call API checked separately. class = line kind x fits/overflow x exactness, depth x body x header count.".into()
+        "random absolute-URI requests (9 methods, 1.0/1.1, 0..60 original + 0..60 caller-added headers with repeated names, mixed case, empty and non-UTF-8 values, explicit/derived Host, caller or default framing, despite-method, Expect) at redirect depth 0..3. The one-shot head is parsed by an independent strict parser and compared with the model (request line, caller-added then original headers in order, exactly one Host, exactly the framing header the body writer then uses - verified by is_chunked() and one real body byte). The same request is then written twice under buffer-size schedules biased to every line length -1/0/+1: each call must emit whole lines identical to the one-shot bytes, OutputOverflow exactly when the next line does not fit, nothing after completion. An OutputOverflow after completion is a violation (no line is left that could fail to fit). A Host header spelled out on the original request, seen again after a redirect, is accepted in both readings (inherited value or derived from the new URI). Call API checked separately. class = line kind x fits/overflow x exactness, depth x body x header count.".into()
     }
     fn assumptions(&self) -> Vec<String> {
         vec![
